@@ -273,7 +273,96 @@ func ruleC03R4(c *Ctx) {
 	})
 	okQ := quotaIf != nil
 	why := "no comparison against maxTotalBytes"
-	if okQ {
+	overEdge := 0 // the successor of quotaIf taken when the chunk does not fit
+	viaHelper := false
+	if quotaIf == nil {
+		// the comparison may stand in a private helper of UnloadChunk that answers "is there space for n bytes" (or "is it
+		// over the limit"): the test in UnloadChunk is then the branch on that helper's result
+		isMax := isFieldAddrOf("buffer/hybridbuffer.chunkOperator.maxTotalBytes")
+		isUsedH := isFieldAddrOf("buffer/hybridbuffer.chunkOperatorMetrics.persistentChunkBytes")
+		for h := range c.helpersOf(fn) {
+			if h.Signature.Results().Len() != 1 || !isBoolType(h.Signature.Results().At(0).Type()) {
+				continue
+			}
+			rvs := returnedValues(h, 0)
+			if len(rvs) != 1 {
+				continue
+			}
+			bo, ok := strip(rvs[0].Val).(*ssa.BinOp)
+			if !ok || !mentions(bo, isMax) || !(mentions(bo.X, isUsedH) || mentions(bo.Y, isUsedH)) {
+				continue
+			}
+			isLenParam := func(v ssa.Value) bool {
+				pp, ok := v.(*ssa.Parameter)
+				return ok && pp.Parent() == h && isIntType(pp.Type())
+			}
+			var overWhenTrue, shaped bool
+			switch {
+			case (bo.Op == token.GTR || bo.Op == token.GEQ) && mentions(bo.X, isLenParam), (bo.Op == token.LSS || bo.Op == token.LEQ) && mentions(bo.Y, isLenParam):
+				overWhenTrue, shaped = true, true
+			case (bo.Op == token.LSS || bo.Op == token.LEQ) && mentions(bo.X, isLenParam), (bo.Op == token.GTR || bo.Op == token.GEQ) && mentions(bo.Y, isLenParam):
+				overWhenTrue, shaped = false, true
+			}
+			unsignedSub := false
+			mentions(bo, func(v ssa.Value) bool {
+				if sb, ok := v.(*ssa.BinOp); ok && sb.Op == token.SUB {
+					if bt, ok := sb.Type().Underlying().(*types.Basic); ok && bt.Info()&types.IsUnsigned != 0 {
+						unsignedSub = true
+					}
+				}
+				return false
+			})
+			if !shaped || unsignedSub {
+				continue
+			}
+			// the branch in UnloadChunk on the helper's result, called with the length of the chunk's data
+			eachInstr(fn, func(in ssa.Instruction) {
+				iff, ok := in.(*ssa.If)
+				if !ok {
+					return
+				}
+				v, neg := iff.Cond, false
+				for {
+					u, ok := v.(*ssa.UnOp)
+					if !ok || u.Op != token.NOT {
+						break
+					}
+					v, neg = u.X, !neg
+				}
+				cl, ok := v.(*ssa.Call)
+				if !ok || cl.Common().StaticCallee() != h {
+					return
+				}
+				lenOK := false
+				for _, a := range cl.Common().Args {
+					if mentions(a, isFieldAddrOf("base.LogChunk.Data")) {
+						lenOK = true
+					}
+				}
+				if !lenOK {
+					return
+				}
+				quotaIf, viaHelper = iff, true
+				if overWhenTrue != neg {
+					overEdge = 0
+				} else {
+					overEdge = 1
+				}
+			})
+		}
+		okQ = quotaIf != nil
+	}
+	if okQ && viaHelper {
+		q := &PathQ{P: c.P, Barrier: func(in ssa.Instruction) bool { return in == ssa.Instruction(quotaIf) }}
+		if hit, _ := q.Reach(entryOf(fn), func(in ssa.Instruction) bool { return in == w.(ssa.Instruction) }); hit != nil {
+			okQ, why = false, "the write is reachable without passing the quota test"
+		}
+		q2 := &PathQ{P: c.P}
+		if hit, _ := q2.Reach(succPoint(quotaIf.Block(), overEdge), func(in ssa.Instruction) bool { return in == w.(ssa.Instruction) }); hit != nil {
+			okQ, why = false, "the over-quota edge can still reach the write"
+		}
+	}
+	if okQ && !viaHelper {
 		// used + len(Data) > max, or len(Data) > max - used (or mirrored): the side with the chunk's length is the larger
 		// one on the true edge; a difference must be computed in a signed type — max - used in an unsigned type wraps to
 		// almost 2^64 as soon as the bytes on disk exceed the limit (limit lowered between runs, tolerated overshoot), and
@@ -1317,4 +1406,9 @@ func isZeroStruct(v ssa.Value) bool {
 		}
 	}
 	return true
+}
+
+func isBoolType(t types.Type) bool {
+	b, ok := t.Underlying().(*types.Basic)
+	return ok && b.Kind() == types.Bool
 }
